@@ -15,6 +15,8 @@ import PgBifrost.Driver.Kinesis
 import PgBifrost.Driver.Marshal
 import PgBifrost.Driver.Parser
 import PgBifrost.Driver.Sys
+import PgBifrost.Driver.Backoff
+import PgBifrost.Driver.Runner
 /-! `bfmodel`: line-protocol driver for the executable models (core Lean only, so it links).
 One request line in, one answer line out. First word selects the model. -/
 open PgBifrost
@@ -38,6 +40,7 @@ structure DriverState where
   clientmon : Driver.Client.MonState := {}
   aggregator : Driver.Aggregator.DState := {}
   sys : Driver.Sys.DState := {}
+  backoff : Driver.Backoff.DState := {}
 
 def dispatch (st : DriverState) (line : String) : DriverState × String :=
   match Util.words line with
@@ -48,6 +51,7 @@ def dispatch (st : DriverState) (line : String) : DriverState × String :=
   | "batch" :: args => let (s, out) := Driver.Batcher.batchHandle st.batch args; ({ st with batch := s }, out)
   | "filter" :: args => let (s, out) := Driver.Filter.handle st.filter args; ({ st with filter := s }, out)
   | "partitioner" :: args => let (s, out) := Driver.Partitioner.handle st.partitioner args; ({ st with partitioner := s }, out)
+  | "batcherload" :: _ => (st, "-")  -- measured load scenario of the batcher harness (C16); judged by its monitor
   | "clientload" :: _ => (st, "-")  -- measured load scenario of the client harness (C18); judged by its monitor
   | "pipeline" :: _ => (st, "-")   -- environment script of the pipeline harness; judged by pipemon/ledgermon
   | "pipemon" :: args => let (s, out) := Driver.Pipeline.handle st.pipemon args; ({ st with pipemon := s }, out)
@@ -74,6 +78,8 @@ def dispatch (st : DriverState) (line : String) : DriverState × String :=
   | "aggregator" :: args => let (s, out) := Driver.Aggregator.handle st.aggregator args; ({ st with aggregator := s }, out)
   | "aggspec" :: args => let (s, out) := Driver.Aggregator.specHandle st.aggregator args; ({ st with aggregator := s }, out)
   | "sys" :: args => let (s, out) := Driver.Sys.handle st.sys args; ({ st with sys := s }, out)
+  | "runner" :: args => (st, Driver.Runner.handle args)
+  | "retrypolicy" :: args => let (s, out) := Driver.Backoff.handle st.backoff args; ({ st with backoff := s }, out)
   | ["ping"] => (st, "pong")
   | _ => (st, "bad-op")
 
